@@ -119,7 +119,7 @@ fn factor_f64(r: &mut Rng) -> f64 {
 pub fn inputs_c18(r: &mut Rng, n: usize, _tier: &str, out: &mut dyn Write) {
     for _ in 0..n {
         let u = unit_name(r);
-        match r.below(32) {
+        match r.below(33) {
             0..=7 => writeln!(out, "unit_mul_f64 {} {}", u, h(count_for_unit(r, u))).unwrap(),
             8 => writeln!(out, "f64_mul_unit {} {}", h(count_for_unit(r, u)), u).unwrap(),
             9 => writeln!(out, "tu_f64 {} {}", u, h(count_for_unit(r, u))).unwrap(),
@@ -156,6 +156,19 @@ pub fn inputs_c18(r: &mut Rng, n: usize, _tier: &str, out: &mut dyn Write) {
             16..=18 => writeln!(out, "to_unit {} {}", dstr(total(r)), u).unwrap(),
             20 => writeln!(out, "{} {}", r.pick(&["in_seconds", "from_seconds_u"]), u).unwrap(),
             21..=27 => writeln!(out, "dmulf {} {}", dstr(total_10ky(r)), h(factor_f64(r))).unwrap(),
+            32 => {
+                // a tiny duration times a huge factor whose product is still representable (or just not)
+                let lim = match r.below(3) { 0 => 3, 1 => 1000, _ => 20_000 };
+                let d = (1 + r.below(lim)) as i128 * if r.chance(1, 4) { -1 } else { 1 };
+                let target = match r.below(4) {
+                    0 => 2f64.powi(60 + r.below(17) as i32) * (1.0 + (r.below(1 << 20) as f64) / (1u64 << 20) as f64),
+                    1 => DMAX as f64 * (1.0 + (r.range_i64(-1000, 1000) as f64) * 1e-6),
+                    2 => 2f64.powi(63 + r.below(2) as i32) * d.abs() as f64, // the factor itself is 2^63 or 2^64
+                    _ => (r.below(1 << 53) as f64) * 2f64.powi(10 + r.below(14) as i32),
+                };
+                let q = target / d.abs() as f64;
+                writeln!(out, "dmulf {} {}", dstr(d), h(if r.chance(1, 4) { -q } else { q })).unwrap()
+            }
             28 => {
                 // products that are whole numbers of nanoseconds although the factor has many binary digits:
                 // d = k * 2^j ns, q = base + i * 2^-j (the clause "exactly the product whenever that is a whole number
